@@ -38,3 +38,28 @@ Proof.
   intros c k snap ups H. rewrite (select_not_chardev k snap H). unfold session_output.
   rewrite C20_buffered_same_proof. reflexivity.
 Qed.
+
+(* start-up configuration (linetrim.go init) *)
+Lemma default_cfg_env : forall k win e e', default_cfg k win e = default_cfg k win e'.
+Proof. reflexivity. Qed.
+
+Lemma default_cfg_not_terminal : forall k win e, is_terminal k = false ->
+  default_cfg k win e = mkcfg false DefaultCols.
+Proof. intros k win e H. unfold default_cfg. rewrite H. reflexivity. Qed.
+
+Lemma default_cfg_terminal : forall win e, default_cfg OTerminal win e = mkcfg true win.
+Proof. reflexivity. Qed.
+
+Lemma not_chardev_not_terminal : forall k, is_char_device k = false -> is_terminal k = false.
+Proof. intros [] H; cbn in *; try discriminate; reflexivity. Qed.
+
+(* a standard output that is not a character device receives the final lines UNTRIMMED,
+   whatever the window size and the environment *)
+Lemma session_untrimmed : forall k win e snap ups, is_char_device k = false ->
+  session_output (default_cfg k win e) (select_writer k snap) ups =
+  Ok (flat_map (fun l => last_write l ups ++ [10%N]) (seq 0 (line_count 0 ups))).
+Proof.
+  intros k win e snap ups H.
+  rewrite (default_cfg_not_terminal k win e (not_chardev_not_terminal k H)).
+  rewrite (session_not_chardev _ k snap ups H). reflexivity.
+Qed.
